@@ -4,12 +4,16 @@ def run(ctx):
     st = [dict(variant="asan", name="c19", sources=["checks/c19_allocfail.c", "harness/mx_wraps.c", "harness/mx_failpoint.c"], wraps=WRAPS,
                shards=vflib.NCPU, timeout=14400 if ctx.thorough else 1500)]
     rule = ("Each case = one whole scenario (load keys/CAs from PEM, create sessions with expected name, full/resumed/client-auth handshake per version, data both ways, closure, "
-            "delete) executed in a fork()ed child with the k-th allocation made inside library API calls failing (link-time --wrap of malloc/calloc/realloc). quick: the first "
-            "occurrence of every distinct allocation site (return-address pair) plus 120 seeded k per scenario plus 60 seeded double/triple faults; thorough: every k of every "
-            "scenario plus 3000 multi-fault runs per scenario. 25 scenarios: TLS 1.1/1.2/1.3 and DTLS 1.2, RSA and ECDSA identities, resumption by session id, TLS 1.2 ticket, TLS 1.3 ticket (NewSessionTicket written, parsed and "
-            "redeemed) and PSK, client auth, and (TLS 1.2 and DTLS 1.2) a stale RFC 5077 ticket: a priming connection that is neither counted nor faulted leaves a ticket in the "
-            "client's session id, the server's ticket key is rotated, and the fault-injected connection presents the old ticket, gets a full handshake and a replacement ticket; "
-            "the session id is deleted at the end of every scenario; 15 good-credential and 10 must-fail (untrusted CA, wrong key, wrong name) scenarios. distinct_nontrivial = distinct "
-            "(scenario, fault ordinals) whose fault was actually reached.")
+            "delete sessions, session id and keys) executed in a fork()ed child with the k-th allocation made inside library API calls failing (link-time --wrap of "
+            "malloc/calloc/realloc). quick: the first occurrence of every distinct allocation site (return address) plus 120 seeded k per scenario plus 60 seeded double/triple "
+            "faults (every k for the one 'window' scenario whose failpoint is armed only after the first handshake); thorough: every k of every scenario plus 3000 multi-fault runs "
+            "per scenario. 35 scenarios: TLS 1.1/1.2/1.3 and DTLS 1.2, RSA and ECDSA identities, resumption by session id, TLS 1.2 ticket, TLS 1.3 ticket (NewSessionTicket "
+            "written, parsed, redeemed) and PSK, client auth; a stale RFC 5077 ticket (uncounted priming connection, server ticket key rotated, replacement ticket; TLS 1.2 and "
+            "DTLS 1.2); caller-supplied ClientHello extensions (server_name + unknown type in TLS 1.2 / DTLS 1.2 incl. HelloVerifyRequest, server_name + ALPN in TLS 1.3 incl. "
+            "a HelloRetryRequest variant); x25519 key shares; certificates with subjectAltName otherName entries (minted PKI, harness/c19pki); 22 good-credential scenarios and "
+            "13 must-fail ones: untrusted CA, wrong key, wrong name (10), a TLS 1.3 ticket obtained for server name A (SNI) and presented on a second connection for server name "
+            "B, which must never complete (2: whole scenario / post-handshake window only), and a ClientHello rewritten on the wire to offer psk_ke only with a recomputed PSK "
+            "binder (drives the server through the PSK-only key schedule; the client must not complete). distinct_nontrivial = distinct (scenario, fault ordinals) whose fault "
+            "was actually reached.")
     return vflib.std_run(ctx, st, "fault_enumeration", rule,
         ["allocations inside libc (fopen, getaddrinfo) are not failed", "LeakSanitizer decides the no-leak clause at the end of each child"], min_nontrivial=500)
